@@ -5,7 +5,7 @@ seeded/eval_log.txt (what our checks reported) and the confirm logs (our own con
 import os, json, shutil, re, sys
 ROOT='/verif/seeded'
 ROUND=int(sys.argv[1]) if len(sys.argv)>1 else 1
-LOG={1:'eval_log.txt',2:'eval_log_r2.txt',3:'eval_log_r3.txt'}[ROUND]
+LOG={1:'eval_log.txt',2:'eval_log_r2.txt',3:'eval_log_r3.txt',4:'eval_log_r4.txt'}[ROUND]
 evals={}
 for line in open(f'{ROOT}/{LOG}'):
     if line.startswith('#') or not line.strip(): continue
@@ -13,7 +13,7 @@ for line in open(f'{ROOT}/{LOG}'):
     evals[(prop,k)]=(first,after,strength.strip())
 out=[]
 for (prop,k),(first,after,strength) in sorted(evals.items()):
-    wt={1:f'/tmp/seed-{prop}',2:f'/tmp/seed2-{prop}',3:f'/tmp/seed3-{prop}'}[ROUND]
+    wt={1:f'/tmp/seed-{prop}',2:f'/tmp/seed2-{prop}',3:f'/tmp/seed3-{prop}',4:f'/tmp/seed4-{prop}'}[ROUND]
     src=f'{wt}/OUT/{k}'
     dst=f'{ROOT}/{prop}-{k}' if ROUND==1 else f'{ROOT}/{prop}-r{ROUND}-{k}'
     if not os.path.isdir(src):
